@@ -69,6 +69,9 @@ VARIANTS = {
     'filename': ({}, {'cfg': {'filename': '/x/other.pt'}}),
     'body': ({}, {'body': '<p>other</p>'}),
     'extra_builtins': ({'body': '<p>${zz|0}</p>'}, {'body': '<p>${zz|0}</p>', 'cfg': {'extra_builtins': {'zz': 1}}}),
+    'boolean_attributes-unset-vs-empty': ({}, {'cfg': {'boolean_attributes': []}}),
+    'boolean_attributes-empty-vs-set': ({'cfg': {'boolean_attributes': []}}, {'cfg': {'boolean_attributes': ['checked']}}),
+    'default_expression-two': ({'cfg': {'default_expression': 'string'}}, {'cfg': {'default_expression': 'structure'}}),
     'boolean_attributes-two-sets': ({'cfg': {'boolean_attributes': ['foo']}}, {'cfg': {'boolean_attributes': ['title']}}),
     'implicit_i18n_attributes-two-sets': ({'cfg': {'implicit_i18n_attributes': ['title']}},
                                           {'cfg': {'implicit_i18n_attributes': ['class']}}),
